@@ -37,6 +37,12 @@ def units(tier, seed):
                 for g in ({"kind": "horizon"}, {"kind": "evals", "n": 80}):
                     desc = dict(engines=list(eng), gens=2, Mh=5, hib=hib, seed=s, choices="GL", gsc=g, sprout={"kind": sk, "L": 2})
                     us += split_units(desc, 1 if tier == "quick" else 2, "GL", {"mode": "shipped"})
+    # several configurations built in ONE process, the 'hibernation' key omitted where it is off:
+    # an option of one tree must not leak into the next
+    seq = []
+    for k, eng in enumerate([("SEA", "DE"), ("DE", "SEA", "CMAf"), ("GA", "SHADE"), ("SEA", "DE")]):
+        seq.append(dict(engines=list(eng), gens=1, Mh=4, hib=(k % 2 == 0), hib_option="omit", seed=s, choices="", sprout={"kind": "scripted", "L": 1, "default": 0 if k % 2 else 1}))
+    us.append({"kind": "sequence", "descs": seq + seq[::-1]})
     return us
 
 
@@ -45,6 +51,10 @@ def _nontrivial(x):
 
 
 def run_unit(unit):
+    if unit.get("kind") == "sequence":
+        from ..runlib import run_descs
+
+        return run_descs(Result(), ID, unit, unit["descs"], MONITORS, _nontrivial)
     return run_split_unit(ID, unit, MONITORS, _nontrivial)
 
 
